@@ -325,13 +325,53 @@ func checkReader(where string, open func() (*htmldoc.Reader, error), fresh bool,
 			prev = toks
 		}
 	}
-	// (2) on atomic units
+	// (2) on atomic units: every unit of the stricter mode is, in order, a
+	// unit of the weaker mode, either unchanged or narrowed by text that the
+	// stricter mode may exclude (navigation nested inside a cell, item, quote)
 	for m := 1; m < 4; m++ {
-		if ok, u := isSubseq(a.units[m], a.units[m-1]); !ok {
-			return nil, fmt.Errorf("%s DocumentWithOptions: mode %s has unit %q, which mode %s does not have unchanged and in that order", where, modeName[m], clip(u), modeName[m-1])
+		j := 0
+		for _, u := range a.units[m] {
+			for j < len(a.units[m-1]) && !narrows(u, a.units[m-1][j], m, ex) {
+				j++
+			}
+			if j == len(a.units[m-1]) {
+				return nil, fmt.Errorf("%s DocumentWithOptions: mode %s has unit %q; mode %s has no such unit in that order (unchanged, or larger by text mode %s may exclude)", where, modeName[m], clip(u), modeName[m-1], modeName[m])
+			}
+			j++
 		}
 	}
 	return &a, nil
+}
+
+// narrows reports whether unit u of mode m is unit v of the next weaker mode:
+// identical, or the same kind of unit with some text removed, all of which
+// mode m is allowed to exclude.
+func narrows(u, v string, m int, ex *expect) bool {
+	if u == v {
+		return true
+	}
+	ku, kv := u[:strings.Index(u, "|")+1], v[:strings.Index(v, "|")+1]
+	if ku != kv {
+		return false
+	}
+	fu, fv := htmlw.Scan(u), htmlw.Scan(v)
+	if len(fu) == 0 || len(fu) >= len(fv) {
+		return false
+	}
+	kept := map[string]bool{}
+	var tu, tv []string
+	for _, f := range fu {
+		tu = append(tu, f.Tok)
+		kept[f.Tok] = true
+	}
+	for _, f := range fv {
+		tv = append(tv, f.Tok)
+		if !kept[f.Tok] && protected(ex.leaf[f.Tok].Anc, m) {
+			return false
+		}
+	}
+	ok, _ := isSubseq(tu, tv)
+	return ok
 }
 
 func sameUnits(a, b []string) bool {
